@@ -350,6 +350,35 @@ func NewTimer(label string, d time.Duration) *Timer {
 	return t
 }
 
+// After replaces time.After: the channel of a new (virtual) timer.
+func After(label string, d time.Duration) <-chan time.Time {
+	return NewTimer(label, d).C
+}
+
+// Since replaces time.Since.
+func Since(t time.Time) time.Duration {
+	g := current()
+	if g == nil || !g.ctl.Controlled {
+		return time.Since(t)
+	}
+	return g.ctl.At(g.ctl.VNow()).Sub(t)
+}
+
+// Sleep replaces time.Sleep.  Controlled mode: a scheduling point, virtual time does not pass by itself.
+func Sleep(label string, d time.Duration) {
+	g := current()
+	if g == nil {
+		time.Sleep(d)
+		return
+	}
+	if !g.ctl.Controlled {
+		g.ctl.freePoint(label)
+		time.Sleep(d)
+		return
+	}
+	g.point(label)
+}
+
 func (t *Timer) Stop() bool {
 	if t.rt != nil {
 		return t.rt.Stop()
